@@ -13,7 +13,7 @@
    oracle only (notes/C11.md). *)
 From Coq Require Import List ZArith.
 From RtoscV Require Import Pretty.Tok Pretty.FloatFmt Pretty.FloatArith Pretty.FloatRangeProofs Pretty.PrintModel Pretty.ScanModel Pretty.FloatRangeWitness
-  Pretty.Grammar Pretty.PrettyProofs Pretty.RunProofs Pretty.GrammarProofs.
+  Pretty.Grammar Pretty.PrettyProofs Pretty.RunProofs Pretty.GrammarProofs Pretty.TimeNowProofs.
 Import ListNotations.
 Local Open Scope Z_scope.
 
@@ -163,3 +163,10 @@ Theorem C11_float_range_inexact_refuted :
   range_arg_x (VFl 1036831949) (VFl 1045220557) 2 = Some (VFl 1053609165) /\
   range_arg_x (VFl 1036831950) (VFl 1050253722) 1 = Some (VFl 1053609166).
 Proof. exact float_range_inexact. Qed.
+
+(* the alternative spelling "now" of a time tag: checker and scanner read it, in
+   any sentence of tokens, as the time tag 1, which the printer writes in the
+   canonical spelling "immediately" (and reads back: C10_timetag_tokof_immediately) *)
+Theorem C11_now_is_immediately : forall (dec2f dec2d : list Z -> Z) o,
+  tokof dec2f dec2d (VTm 1) kw_now /\ print_timetag o 1 = kw_immediately.
+Proof. exact (fun a b o => conj (now_tokof a b) (now_canonical o)). Qed.
